@@ -340,7 +340,23 @@ def selection_item(item):
             rendered = eval(fmt, dict(foldername='run', nameConvention='grid', time=stime))
             names.append(SymName.from_format(rendered, stime))
         st['ts'] = ts
-        env = dict(glob=lambda pattern: list(names), max=max, len=len, int=sym_int, foldername='run', nameConvention='grid', os=os)
+        # modification times are unrelated to the times in the names (checkpoints can be rewritten, copied, restored): arbitrary
+        mts = [z3.Int('mtime%d' % i) for i in range(nfiles)]
+        for mt in mts:
+            ctx.assume(z3.And(mt >= 0, mt < 10 ** 6))
+        ctx.assume(z3.Distinct(*mts))
+        st['mts'] = mts
+
+        def mtime(nm):
+            for nm_, mt in zip(names, mts):
+                if nm_ is nm:
+                    return symx.SInt(mt)
+            return os.path.getmtime(nm)
+        fpath = types.SimpleNamespace(**{k: getattr(os.path, k) for k in dir(os.path) if not k.startswith('_')})
+        fpath.getmtime = fpath.getctime = fpath.getatime = mtime
+        fos = types.SimpleNamespace(**{k: getattr(os, k) for k in ('sep', 'getcwd', 'listdir')})
+        fos.path = fpath
+        env = dict(glob=lambda pattern: list(names), max=max, min=min, sorted=sorted, len=len, int=sym_int, foldername='run', nameConvention='grid', os=fos)
         exec(code, env)
         return env
 
@@ -363,8 +379,9 @@ def selection_item(item):
         elif r == 'sat':
             m = ctx.model()
             times = [m.eval(t, model_completion=True).as_long() for t in ts]
-            got = replay_selection(which, times)
-            rep = dict(kind='selection', which=which, times=times, selected=got)
+            mtv = [m.eval(mt, model_completion=True).as_long() for mt in st['mts']]
+            got = replay_selection(which, times, mtv)
+            rep = dict(kind='selection', which=which, times=times, modification_order=mtv, selected=got)
             if got != max(times):
                 res['violations'].append(('selection:lexicographic_max', '%s: checkpoints at times %s: the code resumes from t=%s, not from %s' % (which, times, got, max(times)), rep))
             else:
@@ -376,7 +393,7 @@ def selection_item(item):
     return res
 
 
-def replay_selection(which, times):
+def replay_selection(which, times, mtimes=None):
     """real files on disk (names produced by the writer's format), real statements"""
     gridmod = H.repo_import('pygyro.model.grid')
     setups = H.repo_import('pygyro.initialisation.setups')
@@ -387,8 +404,11 @@ def replay_selection(which, times):
         stmts, _ = extract_block(gridmod.Grid.loadFromFile, ['glob(', 'max(list_of_files'])
     code = compile(ast.Module(body=stmts, type_ignores=[]), '<replay>', 'exec')
     with tempfile.TemporaryDirectory(prefix='c18_', dir=os.path.join(H.VERIF, 'scratch') if os.path.isdir(os.path.join(H.VERIF, 'scratch')) else None) as d:
-        for t in times:
-            open(eval(fmt, dict(foldername=d, nameConvention='grid', time=t)), 'w').close()
+        for k_, t in enumerate(times):
+            fn_ = eval(fmt, dict(foldername=d, nameConvention='grid', time=t))
+            open(fn_, 'w').close()
+            if mtimes is not None:
+                os.utime(fn_, (10 ** 9 + 60 * mtimes[k_], 10 ** 9 + 60 * mtimes[k_]))
         env = dict(glob=_glob.glob, foldername=d, nameConvention='grid', os=os)
         exec(code, env)
         if which == 'setupFromFile':
